@@ -155,7 +155,12 @@ def run(chk, tier):
         with Lock("feat-%d" % ix):
             for job in jobs[ix::nworkers]:
                 crate, sel, res, exs = job
-                ok, errs, cfgw = cargo_check(crate, sel, target, exs)
+                # the library alone first: checking an example pulls in dev-dependencies, whose features unify with the
+                # selection and can mask a configuration in which the library itself does not build
+                ok, errs, cfgw = cargo_check(crate, sel, target, ())
+                if ok and exs:
+                    ok2, errs2, cfgw2 = cargo_check(crate, sel, target, exs)
+                    ok, errs, cfgw = ok2, errs2, cfgw + [c for c in cfgw2 if c not in cfgw]
                 out.append((job, ok, errs, cfgw))
         return out
 
